@@ -55,6 +55,9 @@ type Asm struct {
 	labels map[string]int
 	fixups []fixup
 	Err    error
+	// GFX9 selects the gfx9/CDNA3 variants of encodings that differ from GCN3
+	// (FLAT: SADDR = 0x7F "off").
+	GFX9 bool
 }
 
 type fixup struct {
@@ -223,7 +226,11 @@ func (a *Asm) FLAT(op int, vdst, addr, data Operand) {
 	if data.Code >= 256 {
 		dt = a.v8(data)
 	}
-	a.word(d<<24 | dt<<8 | a.v8(addr))
+	w := d<<24 | dt<<8 | a.v8(addr)
+	if a.GFX9 {
+		w |= 0x7F << 16
+	}
+	a.word(w)
 }
 
 // DS emits an LDS instruction.
